@@ -108,6 +108,12 @@ def classify_collision(rel: str, api: dict | None) -> str:
         return "unclassified"
     parts = rel.split("/")
     pkg_id, base = "/".join(parts[:-1]), parts[-1][: -len(".sdsstub")]
+    # 'homonymous-declarations-one-target': two or more classes/functions called N (in different packages) are all
+    # recorded as re-exported by P - e.g. `pkg/a/widget/__init__.py` and `pkg/b/widget/__init__.py` both say
+    # `from ._widget import Widget`, and the suffix match on the relative import text cannot tell them apart
+    decls = [d for d in api.get("classes", []) + api.get("functions", []) if d.get("name", "").lstrip("_") == base and pkg_id in (d.get("reexported_by") or [])]
+    if len(decls) >= 2:
+        return "homonymous-declarations-one-target"
     module_names = [m.get("name", "") for m in api.get("modules", []) if m.get("name") != "__init__"]
     for m in api.get("modules", []):
         if m.get("id") == pkg_id and m.get("name") == "__init__":
